@@ -7,8 +7,10 @@ from vlib.qtyops import frs
 
 PID = 'C01'
 PROPERTY_FILE = 'Properties/C01.v'
+# generated model parts (translate/) this property's model / proofs really depend on
+GEN_DEPS = ['QuantityImpl']
 MODEL_TARGETS = Q.MODEL_TARGETS
-PROOF_TARGETS = ['Proofs/C01Proofs.vo', 'Proofs/ViewInv.vo']
+PROOF_TARGETS = ['Proofs/GenQuantityEq.vo', 'Proofs/C01Proofs.vo', 'Proofs/ViewInv.vo']
 COQ_HEADER = Q.COQ_HEADER
 COQ_CHECK = Q.COQ_CHECK
 ISOLATE = True
